@@ -5,5 +5,5 @@ prop=$(python3 -c "import json,sys; print(json.load(open('$sd/meta.json'))['prop
 cd /repo && [ -z "$(git status --porcelain)" ] || { echo "REPO-DIRTY"; exit 4; }; git apply $sd/patch.diff || { echo "PATCH-FAILED $sd"; git checkout -q -- . ; exit 3; }
 git -C /repo reset -q
 cd /verif && ./run $prop $tier > /tmp/seedrun_$(basename $sd).log 2>&1; rc=$?
-cd /repo && git checkout -q -- . 
+cd /repo && { git apply -R $sd/patch.diff 2>/dev/null || git checkout -q -- . ; }; [ -z "$(git status --porcelain)" ] || echo "REPO-LEFT-DIRTY after $sd"
 echo "$(basename $sd) prop=$prop rc=$rc $(grep -E '^VIOLATION|^HARNESS-ERROR' /tmp/seedrun_$(basename $sd).log | head -2 | cut -c1-160)"
